@@ -61,8 +61,17 @@ def run_part(ctx):
         return
     scripts = gen_scripts(r, 400 if not (ctx.thorough or ctx.escalated) else 20000)
     lines = ["s%d %d %d %s" % (i, bs, db, " ".join(ops)) for i, (bs, db, ops) in enumerate(scripts)]
+    # XalanDeque copied into a container of ANOTHER memory manager: nothing may be allocated on the source's manager
+    copies = [(n, bs) for n in (0, 1, 9, 10, 11, 35, 100) for bs in (1, 3, 10)]
+    lines += ["k%d copy %d %d" % (i, n, bs) for i, (n, bs) in enumerate(copies)]
     rc, res, raw = core.run_lines_parallel(exe, lines, sep=" ")
     bad = []
+    for i, (n, bs) in enumerate(copies):
+        ctx.cov["evaluations"] += 1
+        got = res.get("k%d" % i)
+        if got != "c001":
+            bad.append((0, "# XalanDeque<long>(source with %d elements, block size %d) copied into another manager's container: observation %s, specified c001 "
+                           "(c<allocations on the source's manager during the copy><blocks outstanding afterwards><copy equal>)\nk%d copy %d %d" % (n, bs, got, i, n, bs)))
     for i, (bs, db, ops) in enumerate(scripts):
         ctx.cov["evaluations"] += len(ops)
         ctx.count("arena:scripts")
